@@ -134,6 +134,8 @@ class Variable:
         return self.entry(*idx)
 
     def __matmul__(self, w):
+        if hasattr(w, 'toarray'):
+            w = w.toarray().ravel()
         w = np.asarray(w)
         if not (len(self.shape) == 1 and w.shape == self.shape):
             raise ValueError("cvxpy stand-in: incompatible dimensions %s @ %s" % (self.shape, w.shape))
@@ -165,6 +167,8 @@ class _Elementwise:
 
 
 def multiply(var, W):
+    if hasattr(W, 'toarray'):          # scipy sparse matrices are accepted by cvxpy
+        W = W.toarray()
     W = np.asarray(W)
     if not isinstance(var, Variable) or W.shape != var.shape:
         raise ValueError("cvxpy stand-in: multiply(Variable, array of the same shape) only")
